@@ -292,15 +292,18 @@ def run_disk(case, ctx, res):
                 if pos == "inside-edge+1":
                     # ... such that the CR of a CRLF that ends a *tag line* is the last byte of the window and its LF the first
                     # byte outside; tags further down are then outside as well, so only single-tag texts are placed like this
+                    # or, for every convention: the tag line's last character is the window's last byte and its whole line
+                    # ending lies outside
                     want = -1
                     off = 0
-                    for ln in data.split(b"\r\n"):
+                    whole_eol_outside = rng.random() < 0.5 or eol != b"\r\n"
+                    for ln in data.split(eol):
                         if any(m in ln for m in (b"SPDX-", b"Copyright", "©".encode())):
-                            want = 4095 - (off + len(ln))
+                            want = (4096 if whole_eol_outside else 4095) - (off + len(ln))
                             break
-                        off += len(ln) + 2
+                        off += len(ln) + len(eol)
                     ntags = len(made[1]["lic"]) + len(made[1]["cop"]) + len(made[1]["con"])
-                    if eol != b"\r\n" or ntags != 1 or b"\r\n" not in data:
+                    if ntags != 1 or eol not in data or desc["eol"] == "CRLF+CR":
                         want = -1
                 if want < len(eol) + 1:
                     blob = data
